@@ -300,6 +300,116 @@ Lemma body_from_buf_closed b : b < 256 ->
   N.b2n ((b <? 128) && supported_type b).
 Proof. intros Hb. apply N.eqb_eq. revert b Hb. apply sweep1. vm_compute. reflexivity. Qed.
 
+(* ================================================================ views over buffers of any length
+   The bitfield crate's views are generic in their storage (T: AsRef<[u8]> + AsMut<[u8]>): libmctp instantiates them
+   at [u8;1] / [u8;2] / [u8;4], a user may instantiate them over a longer buffer (a Vec, a slice of a whole packet).
+   The bit loops only touch the bytes the declared indices name, so on a buffer at least as long as the struct a
+   getter reads what it reads on the struct-sized prefix and a setter rewrites that prefix and leaves the rest. *)
+
+Lemma upd_app_l i f (pre post : list N) : (i < length pre)%nat -> upd i f (pre ++ post) = upd i f pre ++ post.
+Proof.
+  revert i. induction pre as [|b r IH]; intros i Hi; cbn [length] in Hi; [lia|].
+  destruct i as [|i']; cbn [upd app]; [reflexivity|]. rewrite IH by lia. reflexivity.
+Qed.
+
+Section Loops.
+  Variable pos : nat -> N.
+
+  Lemma set_loop_prefix idxs : forall (pre post : list N) v,
+    Forall (fun i => (i / 8 < length pre)%nat) idxs ->
+    set_loop pos idxs (pre ++ post) v = set_loop pos idxs pre v ++ post.
+  Proof.
+    induction idxs as [|i r IH]; intros pre post v H; cbn [set_loop]; [reflexivity|].
+    inversion H as [|? ? Hi Hr]; subst. unfold set1 at 1. rewrite upd_app_l by exact Hi.
+    fold (set1 pos pre i (N.odd v)). apply IH.
+    rewrite set1_length. exact Hr.
+  Qed.
+
+  Variable W : N.
+  Lemma get_loop_prefix idxs : forall (pre post : list N) acc,
+    Forall (fun i => (i / 8 < length pre)%nat) idxs ->
+    get_loop pos W idxs (pre ++ post) acc = get_loop pos W idxs pre acc.
+  Proof.
+    induction idxs as [|i r IH]; intros pre post acc H; cbn [get_loop]; [reflexivity|].
+    inversion H as [|? ? Hi Hr]; subst. unfold get_bit. rewrite app_nth1 by exact Hi. apply IH. exact Hr.
+  Qed.
+End Loops.
+
+(* every declared bit index lies inside the struct: checked for the 29 fields *)
+Definition idxs_inside (fld : N) : bool :=
+  match field_of fld with
+  | Some f => forallb (fun i => (i / 8 <? struct_len fld)%nat) (f_idxs f)
+  | None => true
+  end.
+Lemma idxs_inside_all fld : fld <= 28 -> idxs_inside fld = true.
+Proof.
+  intros H. assert (E : forallb idxs_inside (map N.of_nat (seq 0 29)) = true) by (vm_compute; reflexivity).
+  rewrite forallb_forall in E. apply E. apply in_map_iff. exists (N.to_nat fld). split; [lia|].
+  apply in_seq. lia.
+Qed.
+
+Lemma idxs_forall fld f (pre : list N) : field_of fld = Some f -> length pre = struct_len fld ->
+  Forall (fun i => (i / 8 < length pre)%nat) (f_idxs f) /\ Forall (fun i => (i / 8 < length pre)%nat) (rev (f_idxs f)).
+Proof.
+  intros Hf Hl.
+  assert (Hfld : fld <= 28).
+  { destruct (N.le_gt_cases fld 28) as [H|H]; [exact H|]. rewrite field_of_none in Hf by exact H. discriminate Hf. }
+  pose proof (idxs_inside_all fld Hfld) as Hi. unfold idxs_inside in Hi. rewrite Hf in Hi.
+  rewrite forallb_forall in Hi.
+  assert (A : Forall (fun i => (i / 8 < length pre)%nat) (f_idxs f)).
+  { apply Forall_forall. intros i Hin. rewrite Hl. apply Nat.ltb_lt, Hi, Hin. }
+  split; [exact A|]. apply Forall_rev. exact A.
+Qed.
+
+Lemma firstn_In_any (k : nat) (l : list N) x : In x (firstn k l) -> In x l.
+Proof. intros H. rewrite <- (firstn_skipn k l). apply in_or_app. left. exact H. Qed.
+
+Lemma hi_inside fld f : field_of fld = Some f -> (f_hi f / 8 < struct_len fld)%nat.
+Proof.
+  intros Hf.
+  assert (Hfld : fld <= 28).
+  { destruct (N.le_gt_cases fld 28) as [H|H]; [exact H|]. rewrite field_of_none in Hf by exact H. discriminate Hf. }
+  assert (E : forallb (fun k => match field_of k with Some g => (f_hi g / 8 <? struct_len k)%nat | None => true end)
+                      (map N.of_nat (seq 0 29)) = true) by (vm_compute; reflexivity).
+  rewrite forallb_forall in E. specialize (E fld). rewrite Hf in E. apply Nat.ltb_lt, E.
+  apply in_map_iff. exists (N.to_nat fld). split; [lia|]. apply in_seq. lia.
+Qed.
+
+Theorem get_field_prefix fld f (pre post : list N) : field_of fld = Some f -> length pre = struct_len fld ->
+  get_field f (pre ++ post) = get_field f pre.
+Proof.
+  intros Hf Hl. destruct (idxs_forall fld f pre Hf Hl) as [A B]. unfold get_field.
+  destruct (f_msb0 f); rewrite get_loop_prefix by assumption; reflexivity.
+Qed.
+
+Theorem set_field_prefix fld f (pre post : list N) v : field_of fld = Some f -> length pre = struct_len fld ->
+  set_field f (pre ++ post) v = set_field f pre v ++ post.
+Proof.
+  intros Hf Hl. destruct (idxs_forall fld f pre Hf Hl) as [A B]. unfold set_field.
+  destruct (f_msb0 f); apply set_loop_prefix; assumption.
+Qed.
+
+(* the documented layout on any buffer that contains the struct *)
+Theorem get_field_any fld f raw : field_of fld = Some f -> (struct_len fld <= length raw)%nat -> bytes_ok raw ->
+  get_field f raw = spec_get fld (firstn (struct_len fld) raw).
+Proof.
+  intros Hf Hl Hok. rewrite <- (firstn_skipn (struct_len fld) raw) at 1.
+  assert (L : length (firstn (struct_len fld) raw) = struct_len fld) by (rewrite firstn_length; lia).
+  rewrite (get_field_prefix fld f _ _ Hf L). apply get_field_spec; [exact Hf|exact L|].
+  unfold bytes_ok in *. apply Forall_forall. intros x Hx. rewrite Forall_forall in Hok. apply Hok.
+  apply (firstn_In_any _ _ _ Hx).
+Qed.
+
+Theorem set_field_any fld f raw v : field_of fld = Some f -> (struct_len fld <= length raw)%nat -> bytes_ok raw ->
+  set_field f raw v = spec_set fld (firstn (struct_len fld) raw) v ++ skipn (struct_len fld) raw.
+Proof.
+  intros Hf Hl Hok. rewrite <- (firstn_skipn (struct_len fld) raw) at 1.
+  assert (L : length (firstn (struct_len fld) raw) = struct_len fld) by (rewrite firstn_length; lia).
+  rewrite (set_field_prefix fld f _ _ v Hf L). f_equal. apply set_field_spec; [exact Hf|exact L|].
+  unfold bytes_ok in *. apply Forall_forall. intros x Hx. rewrite Forall_forall in Hok. apply Hok.
+  apply (firstn_In_any _ _ _ Hx).
+Qed.
+
 (* ================================================================ the one-step lemma *)
 Lemma hdr_get_ok fld raw v : fld <= 28 -> length raw = struct_len fld -> bytes_ok raw ->
   hdr_op 0 fld raw v = XVal (spec_get fld raw).
@@ -310,14 +420,29 @@ Lemma hdr_set_ok fld raw v : fld <= 28 -> length raw = struct_len fld -> bytes_o
 Proof. intros Hfld Hlen Hok. destruct (field_of_some fld Hfld) as [f Hf].
   cbn [hdr_op]. rewrite Hf, Hlen, Nat.eqb_refl. f_equal. apply set_field_spec; assumption. Qed.
 
+Lemma hdr_get_any_ok fld raw v : fld <= 28 -> (struct_len fld <= length raw)%nat -> bytes_ok raw ->
+  hdr_op 12 fld raw v = XVal (spec_get fld (firstn (struct_len fld) raw)).
+Proof. intros Hfld Hlen Hok. destruct (field_of_some fld Hfld) as [f Hf].
+  cbn [hdr_op]. rewrite Hf.
+  assert (Hin : (f_hi f / 8 <? length raw)%nat = true).
+  { apply Nat.ltb_lt. pose proof (hi_inside fld f Hf) as H. lia. }
+  rewrite Hin. f_equal. apply get_field_any; assumption. Qed.
+Lemma hdr_set_any_ok fld raw v : fld <= 28 -> (struct_len fld <= length raw)%nat -> bytes_ok raw ->
+  hdr_op 13 fld raw v = XBytes (spec_set fld (firstn (struct_len fld) raw) v ++ skipn (struct_len fld) raw).
+Proof. intros Hfld Hlen Hok. destruct (field_of_some fld Hfld) as [f Hf].
+  cbn [hdr_op]. rewrite Hf.
+  assert (Hin : (f_hi f / 8 <? length raw)%nat = true).
+  { apply Nat.ltb_lt. pose proof (hi_inside fld f Hf) as H. lia. }
+  rewrite Hin. f_equal. apply set_field_any; assumption. Qed.
+
 Lemma c18_step_ok ovf c o : wf_op o -> good (c18_step o (snd (step ovf c o))) = true.
 Proof.
   intros Hw. destruct o as [p b|p|p|h e|u|h id a ls b|what fld raw v|what b]; try apply good_triv.
   cbn in Hw. destruct Hw as (Hraw & Hv & Hfld).
   cbn [step snd].
-  assert (Hcases : what = 0 \/ what = 1 \/ what = 2 \/ what = 3 \/
-                   (what <> 0 /\ what <> 1 /\ what <> 2 /\ what <> 3)) by lia.
-  destruct Hcases as [->|[->|[->|[->|(H0 & H1 & H2 & H3)]]]].
+  assert (Hcases : what = 0 \/ what = 1 \/ what = 2 \/ what = 3 \/ what = 12 \/ what = 13 \/
+                   (what <> 0 /\ what <> 1 /\ what <> 2 /\ what <> 3 /\ what <> 12 /\ what <> 13)) by lia.
+  destruct Hcases as [->|[->|[->|[->|[->|[->|(H0 & H1 & H2 & H3 & H12 & H13)]]]]]].
   - cbn [c18_step].
     destruct (fld <=? 28) eqn:E1; cbn [andb]; [|apply good_triv]. apply N.leb_le in E1.
     destruct (Nat.eqb_spec (length raw) (struct_len fld)) as [E2|E2]; [|apply good_triv].
@@ -334,7 +459,16 @@ Proof.
     destruct raw as [|x [|y r]]; try discriminate E2.
     inversion Hraw as [|? ? Hx Hr]; subst.
     rewrite body_from_buf_closed by exact Hx. cbn [nth]. apply good_of, N.eqb_refl.
-  - destruct what as [|[[q|q|]|[q|q|]|]]; try apply good_triv; exfalso; auto.
+  - cbn [c18_step].
+    destruct (fld <=? 28) eqn:E1; cbn [andb]; [|apply good_triv]. apply N.leb_le in E1.
+    destruct (Nat.leb_spec (struct_len fld) (length raw)) as [E2|E2]; [|apply good_triv].
+    rewrite hdr_get_any_ok by assumption. apply good_of, N.eqb_refl.
+  - cbn [c18_step].
+    destruct (fld <=? 28) eqn:E1; cbn [andb]; [|apply good_triv]. apply N.leb_le in E1.
+    destruct (Nat.leb_spec (struct_len fld) (length raw)) as [E2|E2]; [|apply good_triv].
+    rewrite hdr_set_any_ok by assumption. apply good_of, list_eqb_refl.
+  - destruct what as [|p]; [exfalso; auto|].
+    do 4 (try (destruct p as [p|p|]; try apply good_triv; try (exfalso; auto; fail))).
 Qed.
 
 Theorem c18_holds : holds_on_model 18.
